@@ -121,6 +121,16 @@ int remove(const char *p) {
 	if (G.armed && p && G.target == p) { G.opcount++; if (G.record) { Op o; o.kind = 'r'; o.off = 0; G.ops.push_back(o); } if (should_fail(F_REMOVE)) { errno = EACCES; return -1; } }
 	return r(p);
 }
+// fread: cfitsio's disk driver reads through it. While armed, the k-th call (and with `sticky` every later one) delivers nothing / half of what was asked for.
+static struct { bool armed = false; long count = 0, fail_at = -1, fired = 0; bool sticky = false; int mode = 0; } RD;
+size_t fread(void *p, size_t s, size_t n, FILE *f) {
+	static auto r = real<size_t (*)(void *, size_t, size_t, FILE *)>("fread");
+	if (RD.armed) {
+		long idx = RD.count++;
+		if (RD.fail_at >= 0 && (idx == RD.fail_at || (RD.sticky && idx > RD.fail_at))) { RD.fired++; errno = EIO; if (RD.mode == 0 || s * n < 2) return 0; size_t part = (s * n) / 2; size_t got = r(p, 1, part, f); return s ? got / s : 0; }
+	}
+	return r(p, s, n, f);
+}
 // realloc used by write_fits_mem (through the macro above)
 static long g_realloc_countdown = -1; static long g_realloc_calls = 0; static long g_realloc_failed = 0;
 void *vf_realloc(void *p, size_t n) {
@@ -378,6 +388,48 @@ static void run_C08sys(const Args &a, long cs) {
 	unlink(in.c_str()); unlink(outp.c_str());
 }
 
+// ================================================================ C20read: every position of a failing read
+// read_fits / the path constructor / readsplinefitstable with the k-th fread failing (nothing or half delivered; once, or from then on): the read must fail and
+// leave the object empty and reusable, or succeed with exactly the table in the file (knots, coefficients, extents, periods, every auxiliary key).
+static bool same_everything(const Table &a, const Table &b, std::string &why) {
+	if (!same_table(a, b)) { why = "knots-or-coefficients"; if (a.get_ndim() != b.get_ndim()) why = "ndim"; else { for (unsigned d = 0; d < a.get_ndim(); d++) { if (a.get_order(d) != b.get_order(d)) why = "order"; else if (a.get_nknots(d) != b.get_nknots(d)) why = "nknots"; else if (memcmp(a.get_knots(d), b.get_knots(d), 8 * a.get_nknots(d))) why = "knot-values"; } if (why == "knots-or-coefficients") why = "coefficient-values"; } return false; }
+	for (unsigned d = 0; d < a.get_ndim(); d++) { if (!biteq(a.lower_extent(d), b.lower_extent(d)) || !biteq(a.upper_extent(d), b.upper_extent(d))) { why = "extents"; return false; } if (!biteq(a.get_period(d), b.get_period(d))) { why = "periods"; return false; } }
+	if (a.get_naux_values() != b.get_naux_values()) { why = "number-of-aux-keys"; return false; }
+	for (size_t i = 0; i < a.get_naux_values(); i++) { const char *k = a.get_aux_key(i), *k2 = b.get_aux_key(i); if (!k || !k2 || strcmp(k, k2)) { why = "aux-key"; return false; } const char *v = a.get_aux_value(k), *v2 = b.get_aux_value(k); if (!v || !v2 || strcmp(v, v2)) { why = "aux-value"; return false; } }
+	return true;
+}
+static void run_C20read(const Args &a, long cs) {
+	Rng r(a.seed, "C20read", cs);
+	Spec s = sized_spec(r, (int)(cs % 3 == 0 ? 0 : cs)); // small tables mostly (few reads each), sometimes larger
+	if (cs % 4 == 1) { s.aux.clear(); }
+	if (cs % 12 == 7) { s.aux.clear(); for (int i = 0; i < 1500; i++) s.aux.push_back({"K" + std::to_string(i), std::to_string(i * 3)}); s.flavor += ",auxkeys~1500(header-larger-than-cfitsio's-record-cache)"; }
+	add_custom_extents(r, s); if (r.coin(0.5)) for (int d = 0; d < s.ndim(); d++) s.periods.push_back(0.25 * (d + 1));
+	std::string path = g_tmp + "/rd." + std::to_string(getpid()) + ".fits";
+	{ Bytes b = mkfits(s); bool ok = write_file(path, (const unsigned char *)b.p, b.n); free(b.p); if (!ok) { note("C20read:could-not-write-input"); return; } }
+	Table T; phase("read_fits (counting reads)"); RD = decltype(RD)(); RD.armed = true;
+	try { T.read_fits(path); } catch (std::exception &e) { RD.armed = false; viol("C20:read_fits:threw-on-a-valid-file", "{\"what\":" + jstr(e.what()) + ",\"table\":" + s.brief() + "}"); unlink(path.c_str()); return; }
+	RD.armed = false; long N = RD.count; count("read-fault:tables"); count("read-fault:fread-calls(unfaulted)", N);
+	long budget = a.tier == "thorough" ? 160 : 40; long step = N > budget ? (N + budget - 1) / budget : 1;
+	for (long k = cs % step; k < N; k += step) for (int variant = 0; variant < 3; variant++) {
+		int entry = (int)r.below(3); const char *en[] = {"read_fits", "path-constructor", "C:readsplinefitstable"};
+		RD = decltype(RD)(); RD.fail_at = k; RD.sticky = variant == 2; RD.mode = variant == 1 ? 1 : 0;
+		std::string ctx = "{\"entry\":" + jstr(en[entry]) + ",\"failing_fread\":" + std::to_string(k) + ",\"of\":" + std::to_string(N) + ",\"kind\":" + jstr(variant == 0 ? "nothing-delivered" : variant == 1 ? "half-delivered" : "nothing-from-then-on") + ",\"table\":" + s.brief() + "}";
+		context(ctx); phasef(std::string(en[entry]) + " with a failing fread");
+		Table *U = nullptr; splinetable h; h.data = nullptr; bool threw = false;
+		int fd2 = dup(2); int dn = open("/dev/null", O_WRONLY); dup2(dn, 2); close(dn); RD.armed = true;
+		try { if (entry == 0) { U = new Table(); U->read_fits(path); } else if (entry == 1) U = new Table(path); else { threw = readsplinefitstable(path.c_str(), &h) != 0; U = static_cast<Table *>(h.data); } } catch (std::exception &e) { threw = true; }
+		RD.armed = false; fflush(stderr); dup2(fd2, 2); close(fd2);
+		count("read-fault:runs"); if (RD.fired) count("read-fault:faults-fired"); distinct(hash_mix(hash_mix(s.hash(), (uint64_t)k * 8 + variant), entry));
+		bool bighdr = s.aux.size() > 1400; // more header records than cfitsio keeps buffers for: it re-reads them, and a failed re-read is swallowed inside cfitsio (recorded finding)
+		if (!threw) { count("read-fault:reads-reporting-success"); std::string why; if (!U || !same_everything(*U, T, why)) viol(bighdr ? std::string("C20:read(any-entry):read-reported-success-after-a-failed-fread-but-the-table-differs:header-larger-than-cfitsio-record-cache") : std::string("C20:") + en[entry] + ":read-reported-success-after-a-failed-fread-but-the-table-differs:" + why, ctx); else { phase("use after faulted successful read"); auto w = U->write_fits_mem(); free(w.first); } }
+		else { count("read-fault:reads-reporting-failure");
+			if (U && (U->get_ndim() != 0 || U->get_naux_values() != 0)) viol(std::string("C20:") + en[entry] + ":failed-read-left-the-object-non-empty", ctx);
+			if (U && entry != 1) { phase("reuse after failed read"); bool ok2 = true; try { U->read_fits(path); } catch (std::exception &e) { ok2 = false; } std::string why; if (!ok2 || !same_everything(*U, T, why)) viol(std::string("C20:") + en[entry] + ":object-not-reusable-after-a-failed-read", ctx); } }
+		phase("destroy after faulted read"); if (entry == 2) splinetable_free(&h); else delete U;
+	}
+	unlink(path.c_str());
+}
+
 // child of the syscall-level pass: plain library use, no interposed faults; the verdict of the writer is the exit status (0 = reported success, 3 = threw)
 static int child_main(int argc, char **argv) {
 	if (argc < 5) _exit(2);
@@ -397,6 +449,7 @@ int main(int argc, char **argv) {
 		begin_case(cs);
 		if (a.prop == "C08") run_C08(a, cs);
 		else if (a.prop == "C08sys") run_C08sys(a, cs);
+		else if (a.prop == "C20read") { prop_id() = "C20"; run_C20read(a, cs); }
 		else { fprintf(stderr, "unknown mode %s\n", a.prop.c_str()); return 2; }
 	}
 	finish();
